@@ -246,6 +246,21 @@ def webanno_jobs(tier, seed):
     return jobs
 
 
+def transpose_jobs(tier, seed):
+    """C16: every source range over three texts sharing re-ordered fragments, transposed over a two-sided, a three-sided
+    and a simple transposition, then transposed back over the transposition that was returned."""
+    style = seed % 5
+    quick = tier == 'quick'
+    big = dict(MaxAnns=20, MaxRes=3, MaxData=6, MaxSets=2, MaxKeys=4)
+    jobs = [dict(mc_job('mc_transpose', 'transpose', maxanns=14, maxres=3, prelude=12, MaxData=6, MaxSets=2, MaxKeys=4, Depth=2),
+                 invariants=STORE_INVS + ['InvTranspositions']),
+            gen_job('transpose_d2', 'transpose', 12, depth=2, style=style, **big),
+            gen_job('transpose_back', 'transpose', 12, simulate=60 if quick else 600, simdepth=4, style=(style + 1) % 5, sample_mod=5, **big)]
+    if not quick:
+        jobs.append(gen_job('transpose_d2_s', 'transpose', 12, depth=2, style=(style + 2) % 5, roundtrips=[RT('json', 'string'), RT('cbor')], **big))
+    return jobs
+
+
 def validation_jobs(tier, seed):
     style = seed % 5
     quick = tier == 'quick'
@@ -307,6 +322,8 @@ def plan_for(prop, tier, seed, replay_file=None):
     if prop in ('C05', 'C11', 'C15'):
         return dict(jobs=roundtrip_jobs(prop, tier, seed), rule=STORE_RULE + '; every history is extended with serialisation round trips '
                     'after which it continues on the reloaded store', assumptions=STORE_ASSUMPTIONS)
+    if prop == 'C16':
+        return dict(jobs=transpose_jobs(tier, seed), rule=STORE_RULE, assumptions=STORE_ASSUMPTIONS)
     if prop == 'C17':
         return dict(jobs=webanno_jobs(tier, seed), rule=TABLE_RULE, assumptions=STORE_ASSUMPTIONS)
     if prop == 'C18':
